@@ -245,6 +245,9 @@ class RpcClient:
             response[encrypt_offsets[0] : sec_trailer_offset] = dec_stub
 
         pdu_resp = PDU.unpack(response)
+        if self._auth and encrypt_offsets and not pdu_header.auth_len and isinstance(pdu_resp, Response):
+            raise ValueError("Received RPC response without a security trailer on an authenticated connection")
+
         if isinstance(pdu_resp, BindNak):
             raise ValueError(f"Received BindNack with reason 0x{pdu_resp.reject_reason:08X}")
         elif isinstance(pdu_resp, Fault):
